@@ -1751,6 +1751,29 @@ pos("C20", "client-on-shared-provider", "the client takes its callback tree from
     [(CLI, "	p := topics.NewMemProvider()\n	topics.Register(cln.svc.sess.ID(), p)\n\n	cln.svc.topicsMgr, err = topics.NewManager(cln.svc.sess.ID())", "	cln.svc.topicsMgr, err = topics.NewManager(DefaultTopicsProvider)", 1, 2)],
     ["C20/T16-provider-wiring/(*service.Client).Connect:topics.NewManager:own-fresh-provider"])
 
+# ---------------------------------------------------------------- round 8
+pos("C16", "publish-waits-on-never-created-channel", "the delivery path blocks on svc.done, a channel no function creates",
+    [(SVC, "func (svc *service) publish(msg *message.PublishMessage, onComplete OnCompleteFunc) error {\n", "func (svc *service) publish(msg *message.PublishMessage, onComplete OnCompleteFunc) error {\n\t<-svc.done\n")],
+    ["C16/L9-no-wait-on-a-channel-that-is-never-created/(*service.service).publish:blocking-channel-op#1"])
+pos("C13", "ack-slot-used-after-relock", "Ack looks the slot up, releases the queue lock, takes it again and stores with the remembered slot",
+    [(AQ, "\t\ti, ok := aq.emap[msg.PacketID()]\n\t\tif ok {", "\t\ti, ok := aq.emap[msg.PacketID()]\n\t\taq.mu.Unlock()\n\t\taq.mu.Lock()\n\t\tif ok {")],
+    ["C13/L8-no-stale-position-across-sections/(*sessions.Ackqueue).Ack:position-from(Ackqueue.emap)-addresses(Ackqueue.ring)#1"])
+pos("C18", "ack-slot-used-after-relock", "the same edit, seen by the sharing discipline",
+    [(AQ, "\t\ti, ok := aq.emap[msg.PacketID()]\n\t\tif ok {", "\t\ti, ok := aq.emap[msg.PacketID()]\n\t\taq.mu.Unlock()\n\t\taq.mu.Lock()\n\t\tif ok {")],
+    ["C18/L8-no-stale-position-across-sections/(*sessions.Ackqueue).Ack:position-from(Ackqueue.emap)-addresses(Ackqueue.ring)#1"])
+pos("C06", "lookup-answers-without-the-walk", "Subscribers returns successfully for one-byte topics without walking the tree",
+    [(MT, "\t*subs = (*subs)[0:0]\n\t*qoss = (*qoss)[0:0]\n\n\treturn mt.sroot.smatch(topic, qos, subs, qoss)", "\t*subs = (*subs)[0:0]\n\t*qoss = (*qoss)[0:0]\n\n\tif len(topic) == 1 {\n\t\treturn nil\n\t}\n\n\treturn mt.sroot.smatch(topic, qos, subs, qoss)")],
+    ["C06/T18-lookup-from-the-source/MemTopics.Subscribers:answers-from-the-tree"])
+pos("C02", "wait-passes-on-the-duplicate-error", "Wait returns what insert says about a duplicate identifier",
+    [(AQ, "\t\taq.insert(msg.PacketID(), msg, onComplete)\n\n\tcase *message.SubscribeMessage:", "\t\tif err := aq.insert(msg.PacketID(), msg, onComplete); err != nil {\n\t\t\treturn err\n\t\t}\n\n\tcase *message.SubscribeMessage:")],
+    ["C02/T2-terminal-ack-tables/Wait:registers(PublishMessage)"])
+pos("C11", "kick-before-authentication", "the accept path ends another connection before the credentials are checked",
+    [(SRV, "\t// Authenticate the user, if error, return error and exit\n", "\tsvr.mu.Lock()\n\tfor _, old := range svr.svcs {\n\t\tif old.sess != nil && old.sess.ID() == string(req.ClientID()) {\n\t\t\tgo old.stop()\n\t\t}\n\t}\n\tsvr.mu.Unlock()\n\n\t// Authenticate the user, if error, return error and exit\n")],
+    ["C11/P11-effect-dominance/accept:authentication-before-any-effect"])
+neg("C11", "nil-check-in-front-of-init", "Session.Init refuses a nil CONNECT with a package-level error (cannot happen on the accept path)",
+    [(SESS, "\ts.cbuf = make([]byte, msg.Len())\n\ts.Cmsg = message.NewConnectMessage()\n", "\tif msg == nil {\n\t\treturn errNoConnect\n\t}\n\n\ts.cbuf = make([]byte, msg.Len())\n\ts.Cmsg = message.NewConnectMessage()\n", 1, 2),
+     (SESS, "const (\n", "var errNoConnect = fmt.Errorf(\"Session: CONNECT message is nil\")\n\nconst (\n", 1, 1)])
+
 
 def main():
     os.makedirs(OUT, exist_ok=True)
